@@ -13,6 +13,11 @@ NA_FIXED = {
 }
 
 CLAIMS = {
+    'C06': dict(
+        technique="static check-before-use taint analysis over rustc MIR (interprocedural, summaries of validators computed, sinks = Assert terminators / range-sensitive calls / governed panics) + typed-HIR path-condition matching of every Error construction against a per-variant truth table",
+        text="Decides two clauses for all argument values and all paths: (a) no caller-supplied integer of the public codec API reaches an overflow/bounds/division check, a range-sensitive std call or a governed panic before an upper-bounding comparison (or a validator whose own summary shows it bounds the value on success); (b) each of the 18 Error constructions is governed by exactly the documented violated precondition and its fields are the operands of that condition; (c) callee errors are passed through unchanged. Found defects F2/F3 on the pinned tree (repaired by fix: b5b55b1).",
+        note="Discipline rule, not a proof that guarded arithmetic cannot overflow; 'valid use never fails' and panics deep inside the transforms (arithmetic over validated counts) are not decided. Taint does not flow through memory.",
+        design="§4 C06"),
     'C07': dict(
         technique="static failure-atomicity analysis over rustc MIR: interprocedural mutation summaries through &mut parameters x reachability of Err exits, with same-pure-predicate discharge under condition-pruned dominance",
         text="Decides, for all paths of every function that takes a &mut codec/work object and returns Result, that no write to the object can be followed by an Err return (two exact exceptions: the failing call is itself an in-scope callee; or the failure is the Err edge of a pure validation already known true with the same arguments). 'Behaves as if the call had not been made' follows from 'wrote nothing'. Found defect F1 on the pinned tree (repaired by fix: c681adf).",
